@@ -3,6 +3,7 @@ package checks
 import (
 	"fmt"
 	"math/rand/v2"
+	"reflect"
 	"strings"
 	"sync"
 	"sync/atomic"
@@ -49,7 +50,7 @@ type c09Run struct {
 }
 
 func genC09(r *rand.Rand) c09Case {
-	cs := c09Case{MaxHedges: r.IntN(5), Cancel: vk.Pick(r, "default", "pred", "pred", "nilerr", "never", "result7"),
+	cs := c09Case{MaxHedges: r.IntN(5), Cancel: vk.Pick(r, "default", "pred", "pred", "nilerr", "never", "result7", "errtype"),
 		Mode: vk.Pick(r, "timing", "gates", "gates"), Placement: vk.Pick(r, "H", "H", "Retry(H)", "Timeout(H)", "Fallback(H)", "H(Timeout)"), Async: r.IntN(4) == 0}
 	base := vk.Pick(r, int64(1e6), 3e6)
 	switch r.IntN(3) {
@@ -131,6 +132,8 @@ func (cs c09Case) matches(v int, err error) bool {
 		return err == nil
 	case "result7":
 		return v == 7 && err == nil
+	case "errtype": // the only condition configured is an error type
+		return typeWalk(err, reflect.TypeOf(valErr{}))
 	}
 	return false
 }
@@ -212,6 +215,8 @@ func c09Scenario(rep *vk.Report, idx int, prop string) {
 		hb.CancelIf(func(int, error) bool { return false })
 	case "result7":
 		hb.CancelOnResult(7)
+	case "errtype":
+		hb.CancelOnErrorTypes(valErr{})
 	}
 	H := hb.Build()
 	if r.IntN(2) == 0 {
@@ -272,6 +277,11 @@ func c09Scenario(rep *vk.Report, idx int, prop string) {
 		case "result7":
 			if a.Match {
 				v = 7
+			}
+		case "errtype":
+			e = fmt.Errorf("attempt-%d: %w", id, errE1)
+			if a.Match {
+				e = fmt.Errorf("attempt-%d: %w", id, valErr{id})
 			}
 		}
 		fin := func(v int, e error, normal bool) (int, error) {
@@ -361,6 +371,12 @@ func c09Scenario(rep *vk.Report, idx int, prop string) {
 				var e error
 				if cs.Cancel == "nilerr" && !a.Match {
 					e = errE1
+				}
+				if cs.Cancel == "errtype" {
+					e = errE1
+					if a.Match {
+						e = valErr{1}
+					}
 				}
 				if cs.matches(v, e) {
 					matchedReleased = true
